@@ -535,6 +535,15 @@ func c18RecordCodec(r *rand.Rand) (c18RecCodec, bool) {
 			if len(n2) == 0 {
 				return rec, false
 			}
+			var wkt []protoreflect.Message
+			for _, m := range n2 {
+				if strings.HasPrefix(string(m.Descriptor().FullName()), "google.protobuf.") {
+					wkt = append(wkt, m)
+				}
+			}
+			if len(wkt) > 0 && r.IntN(3) == 0 {
+				n2 = wkt
+			}
 			n2[r.IntN(len(n2))].SetUnknown(c18UnknownField(r))
 		}
 		input, err = proto.Marshal(withUnk)
@@ -574,7 +583,8 @@ func c18Collect(m protoreflect.Message, acc *[]protoreflect.Message, top bool) {
 		*acc = append(*acc, m)
 	}
 	m.Range(func(fd protoreflect.FieldDescriptor, v protoreflect.Value) bool {
-		if fd.Message() == nil || fd.IsMap() || strings.HasPrefix(string(fd.Message().FullName()), "google.protobuf.") {
+		// well-known types included: an Any, an Empty or a Struct is a message like any other to the strict codec
+		if fd.Message() == nil || fd.IsMap() {
 			return true
 		}
 		if fd.IsList() {
